@@ -55,6 +55,11 @@ pub enum TEvent {
         session: bool,
         #[serde(default)]
         faults: Vec<Fault>,
+        /// the key directory takes this many (simulated) seconds to answer: time passes *during*
+        /// the verification. A credential that is outside its window when the call returns must
+        /// not have been accepted by it.
+        #[serde(default)]
+        resolver_latency_s: i64,
     },
 }
 
@@ -169,7 +174,7 @@ pub fn gen_c09(rng: &mut Rng, tier: Tier) -> Result<Value, serde_json::Error> {
     let view = Value::Object(body.clone());
     let mut events = Vec::new();
     events.push(TEvent::Present { selection: gen::gen_selection(rng, &view, 800), kb: holder_key.is_some() && rng.bool() });
-    events.push(TEvent::Verify { fmt: rand_fmt(rng), session: rng.bool(), faults: way_faults(rng) });
+    events.push(TEvent::Verify { fmt: rand_fmt(rng), session: rng.bool(), faults: way_faults(rng), resolver_latency_s: if rng.chance(1, 5) { *rng.pick(&[1i64, 5, 30, 61, 125, 3600]) } else { 0 } });
     for h in holds {
         events.push(TEvent::Hold(h));
         match rng.usize(10) {
@@ -178,7 +183,7 @@ pub fn gen_c09(rng: &mut Rng, tier: Tier) -> Result<Value, serde_json::Error> {
             2 | 3 => events.push(TEvent::Present { selection: gen::gen_selection(rng, &view, 700), kb: holder_key.is_some() && rng.bool() }),
             _ => {}
         }
-        events.push(TEvent::Verify { fmt: rand_fmt(rng), session: rng.bool(), faults: way_faults(rng) });
+        events.push(TEvent::Verify { fmt: rand_fmt(rng), session: rng.bool(), faults: way_faults(rng), resolver_latency_s: if rng.chance(1, 5) { *rng.pick(&[1i64, 5, 30, 61, 125, 3600]) } else { 0 } });
     }
     let s = TimelineScn {
         kind: "timeline".into(),
@@ -390,7 +395,7 @@ pub fn execute(scn_v: &Value) -> RunReport {
                     rep.count("presentations_refused");
                 }
             }
-            TEvent::Verify { fmt, session, faults: way } => {
+            TEvent::Verify { fmt, session, faults: way, resolver_latency_s } => {
                 let Some((mut m, has_kb)) = current.clone() else { continue };
                 let mut tampered = false;
                 for f in way {
@@ -406,20 +411,30 @@ pub fn execute(scn_v: &Value) -> RunReport {
                     rep.count("skipped_tv_out_of_bounds");
                     continue;
                 }
+                if *resolver_latency_s > 0 {
+                    w.resolver_latency_s = *resolver_latency_s;
+                    rep.count("fault.slow_key_directory_time_passes_during_verification");
+                }
                 let vo = w.verify(n_v, &wire, *fmt, session.clone(), &Resolver::Directory);
+                w.resolver_latency_s = 0;
                 let tv = vo.clock_reads.first().copied().unwrap_or(now_v);
+                // the verifier's local time when the call returned (later than tv if the key
+                // directory was slow)
+                let tv_end = (seams::clock_s() + v_skew).max(tv);
                 let accepted = vo.res().is_ok();
                 rep.evaluations += 1;
-                // classification relative to the window, on the verifier's local time
+                // classification relative to the window, on the verifier's local time: outside the
+                // window when the call returns = must reject; inside it from start to end = must
+                // not be rejected for temporal reasons
                 let exp_state = match exp_num {
                     None => "exp_missing",
-                    Some(e) if e < (tv - BAND) as f64 => "expired",
-                    Some(e) if e >= (tv + BAND) as f64 => "exp_ok",
+                    Some(e) if e < (tv_end - BAND) as f64 => "expired",
+                    Some(e) if e >= (tv_end + BAND) as f64 => "exp_ok",
                     Some(_) => "exp_band",
                 };
                 let nbf_state = match nbf_num {
                     None => "nbf_absent",
-                    Some(n) if n > tv + BAND => "nbf_future",
+                    Some(n) if n > tv_end + BAND => "nbf_future",
                     Some(n) if n <= tv - BAND => "nbf_past",
                     Some(_) => "nbf_band",
                 };
